@@ -58,6 +58,16 @@ Theorem C34_fullname_parent :
 Proof. exact fn_parent_append. Qed.
 Print Assumptions C34_fullname_parent.
 
+(* ToFileDescriptorProto (NewFile p) is the explicit normal form of p, for every p that
+   NewFile accepts (names made absolute, unset type filled in, syntax "proto2"/empty package
+   dropped, defaults canonical, ...: see [normalize] in Desc/ConvertModel.v).
+   _partial: options and features beyond the six modelled ones are opaque; services by name
+   only; no source info; validation (C35) is not part of [new_file]. *)
+Theorem C34_to_proto_new_file_partial :
+  forall canon env p d, new_file canon env p = Ok d -> to_proto d = normalize canon env p.
+Proof. exact to_proto_new_file. Qed.
+Print Assumptions C34_to_proto_new_file_partial.
+
 (* ---- non-vacuity *)
 Definition ex_b (s : list byte) : bytes := s.
 Definition ex_tbl : list Decl :=
@@ -83,3 +93,13 @@ Proof. cbn. repeat constructor. Qed.
 
 Example C34_ex_ident : ident_ok ["M";"1";"_"]%byte = true.
 Proof. reflexivity. Qed.
+
+Example C34_ex_new_file_accepts : is_ok (new_file idc [] ex_file) = true.
+Proof. exact ex_file_accepted. Qed.
+
+Example C34_ex_normal_form :
+  match normalize idc [] ex_file with
+  | mkFileP _ _ _ _ _ _ [mkMsgP _ (f :: _) _ _ _ _ _ _ _ _ _] _ _ _ _ => f_type_name f = Some (bs ".a.M.M")
+  | _ => False
+  end.
+Proof. exact ex_file_normal_form. Qed.
